@@ -109,6 +109,11 @@ def run_slices(binary, args, nslices=None, timeout=None, env=None, jobs=None):
     def one(i):
         cmd = [binary] + list(args) + [str(i), str(nslices)]
         rc, out, err = run_cmd(cmd, timeout=timeout, env=env)
+        if rc == -9:
+            # SIGKILL never comes from the harness or the library: the kernel's out-of-memory killer or an operator.  Run the
+            # slice again, alone in this worker, before drawing any conclusion
+            time.sleep(5)
+            rc, out, err = run_cmd(cmd, timeout=timeout, env=env)
         r = Result()
         r.feed(out)
         if rc != 0:
